@@ -8,6 +8,7 @@
     begin <t> <tid>                   → ok | blocked | err:StorageTransaction
     store <t> <oid> <serial> <rec>    → ok | resolved [calls] | err:Conflict [calls] | err:StorageTransaction
     check <t> <oid> <serial>          → ok | err:ReadConflict | err:KeyError | err:StorageTransaction
+    delete <t> <oid> <serial>         → ok | err:Conflict | err:KeyError | err:Unsupported | err:StorageTransaction
     vote <t>                          → voted [oid,…] | err:StorageTransaction
     finish <t>                        → ok <tid> | err:StorageTransaction
     abort <t>                         → ok
@@ -216,6 +217,7 @@ def outStr (o : Out) (calls : List Call) : String :=
   | .readConflict => "err:ReadConflict"
   | .keyError => "err:KeyError"
   | .txnError => "err:StorageTransaction"
+  | .unsupported => "err:Unsupported"
   | .voted l => "voted [" ++ joinWith "," (l.reverse.map toString) ++ "]"
   | .finished tid => "ok " ++ toString tid
 
@@ -259,6 +261,10 @@ def srStep (d : DState) (toks : List String) : DState × String :=
     match t.toNat?, oid.toNat?, serial.toNat? with
     | some t, some oid, some serial => doStep d (.check t oid serial)
     | _, _, _ => (d, "bad-op")
+  | ["delete", t, oid, serial] =>
+    match t.toNat?, oid.toNat?, serial.toNat? with
+    | some t, some oid, some serial => doStep d (.delete t oid serial)
+    | _, _, _ => (d, "bad-op")
   | ["vote", t] =>
     match t.toNat? with
     | some t => doStep d (.vote t)
@@ -274,7 +280,8 @@ def srStep (d : DState) (toks : List String) : DState × String :=
   | ["cur", oid] =>
     match oid.toNat? with
     | some oid =>
-      (d, match curK d.sys.kind d.sys.hist d.sys.base oid with
+      (d, if checkDeleted d.sys oid then "none" else
+          match curK d.sys.kind d.sys.hist d.sys.base oid with
           | some t => toString t
           | none => "none")
     | none => (d, "bad-op")
@@ -340,7 +347,10 @@ def srStep (d : DState) (toks : List String) : DState × String :=
         match r.out with
         | .copy rec => (commit rec false, "ok " ++ recStr rec)
         | .merged rec => (commit rec true, "ok " ++ recStr rec ++ callsStr r.call.toList)
-        | .uncreate => ({ d with sys := { d.sys with cache := r.cache } }, "ok uncreated")
+        | .uncreate =>
+          let t : Txn := { tid := tid, recs := [{ oid := oid, base := ct, data := tomb, wanted := tomb,
+                                                   resolved := false, deleted := true }], checked := [] }
+          ({ d with sys := { d.sys with cache := r.cache, hist := t :: d.sys.hist } }, "ok none")
         | .undoError =>
           ({ d with sys := { d.sys with cache := r.cache } }, "err:Undo" ++ callsStr r.call.toList)
     | _, _, _ => (d, "bad-op")
